@@ -158,9 +158,13 @@ def run(chk, facts):
         un = [f for f in syn.find_fn("union", mod="check::name", impl_of="Name") if "Union < Name >" in (f.get("impl_trait") or "") or "Union<Name>" in (f.get("impl_trait") or "").replace(" ", "")]
         if len(un) != 1:
             raise AnchorError(f"{len(un)} impl Union<Name> for Name")
-        s = src(un[0]["body"]).replace(" ", "")
-        ok = "ifnames.iter().any(TrueName::is_null)&&(names.len()>1)" in s.replace("(names.iter().any(TrueName::is_null)&&(names.len()>1))", "names.iter().any(TrueName::is_null)&&(names.len()>1)") and \
-            ".filter(|n|!n.is_null()).map(TrueName::as_nullable)" in s
+        # compared after inlining named intermediates and with the set union written as S (parentheses dropped):
+        #   names: if S.iter().any(is_null) && S.len() > 1 { S.iter().filter(|n| !n.is_null()).map(as_nullable).collect() } else { S }
+        from .common import inline_lets
+        s = src(inline_lets(un[0]["body"], typed=True), -30).replace(" ", "")     # (negative start depth: render deep chains in full)
+        S = "self.names.union(&name.names).cloned().collect()"
+        t = s.replace(S, "S").replace("(", "").replace(")", "")
+        ok = "names:ifS.iter.anyTrueName::is_null&&S.len>1{S.iter.filter|n|!n.is_null.mapTrueName::as_nullable.collect}else{S}" in t
         chk.ob("R-C06-3", "union-with-None", ok, "a union that contains None (and something else) becomes the other members made nullable" if ok else
                "Name::union no longer turns `T | None` into `T?`", facts.loc_of(un[0]))
     except AnchorError as e:
